@@ -247,7 +247,12 @@ class Run(object):
         # what the caller assigned and the library accepted.  Constructor arguments other than the data are
         # not tracked: the statement is about attribute assignments (and the pinned constructor silently
         # drops its `detrend` argument, which is not a staleness matter).
-        self.assigned = {"data": np.array(dec_data(cfg["data"]))}
+        self.assigned = {}
+        if self.p is not None:
+            try:
+                self.assigned["data"] = np.array(self.p.data)
+            except Exception:
+                pass
 
     def close(self):
         self.plane.remove()
@@ -352,9 +357,11 @@ class Run(object):
             self.bump("fault:F4:site:%s:%s:%s" % (self.cls, k if k != "set" else "set:" + op["attr"],
                                                  self.plane.fired_sites[-1][0]))
             self.dirty = True
-            if exc is None and k != "str":      # __str__ documents that it swallows a failing psd
-                viol = Violation("fault_visible", idx,
-                                 "kernel failure injected during %r did not surface to the caller" % (k,))
+            if exc is None:
+                # Not a violation in itself: the statement does not say where a failing computation must
+                # surface (str(p) documents that it swallows it).  What matters is that no later read
+                # serves a wrong value, which the read clauses decide.  Counted for the evidence.
+                self.bump("fault:F4:swallowed_by_operation")
         elif exc is not None and k in ("set", "reassign"):
             self.bump("fault:F1:rejected_assignment" if recomputed == 0 else "fault:F3:failure_inside_setter")
         elif exc is not None and k in ("read", "call", "run", "conv", "power"):
@@ -448,20 +455,15 @@ class Run(object):
 
         # ---- an accepted assignment sticks: the object never rewrites an attribute by itself -----
         if k == "set" and exc is None and op["attr"] != "sides":
+            # the expectation is what the object reports right after it accepted the assignment, so that
+            # normalisation at assignment time (list -> array, alias -> canonical name, None -> derived
+            # NFFT) is never mistaken for drift
             a = op["attr"]
-            if a == "data":
-                self.assigned[a] = np.array(dec_data(op["value"]))
-            elif a == "NFFT":
-                if isinstance(op["value"], int):
-                    self.assigned[a] = op["value"]
-                else:
-                    self.assigned.pop(a, None)
-            elif a == "ar_order" and op["value"] is None:
-                pass                                   # documented: None leaves the order unchanged
-            elif a in ("window", "detrend"):
-                pass                                   # names: an implementation may normalise aliases
-            else:
-                self.assigned[a] = op["value"]
+            try:
+                cur = getattr(p, a)
+                self.assigned[a] = np.array(cur) if a == "data" else cur
+            except Exception:
+                self.assigned.pop(a, None)
         if viol is None:
             viol = self._check_drift(idx)
 
@@ -502,7 +504,7 @@ class Run(object):
                 same = g.shape == want.shape and np.iscomplexobj(g) == np.iscomplexobj(want) and bool(
                     np.all((g == want) | ((g != g) & (want != want))))
             else:
-                same = (got == want) and (type(got) is type(want) or not isinstance(want, bool))
+                same = got == want
             if not same:
                 return Violation("attr_drift", idx, "%s was assigned %s but the object now reports %s" % (
                     a, "<%d values>" % len(want) if a == "data" else repr(want),
